@@ -3,7 +3,10 @@
 package vsched
 
 import (
+	"crypto/sha256"
+	"encoding/binary"
 	"fmt"
+	"strings"
 	"time"
 )
 
@@ -66,8 +69,12 @@ func BFS(o BFSOpts, build func(s *Sched) World) *ExploreResult {
 	st.Name, st.Config, st.Kind = o.Name, o.Config, "histories"
 	st.Outcomes = map[string]int{}
 	st.Bound = fmt.Sprintf("depth<=%d,deviations/op<=%d", o.Depth, o.DevPerOp)
-	seen := map[string]struct{}{}
-	nontriv := map[string]struct{}{}
+	// hash compaction: the seen-set holds 128-bit SHA-256 prefixes of the canonical state keys (the
+	// keys are 1-3 kB each; millions of them do not fit in memory). A collision would merge two
+	// states silently; with n states its probability is below n^2 / 2^129.
+	seen := map[keyHash]struct{}{}
+	internOps := map[string][]string{}
+	nontriv := map[keyHash]struct{}{}
 
 	type runOut struct {
 		feature  string
@@ -140,7 +147,7 @@ func BFS(o BFSOpts, build func(s *Sched) World) *ExploreResult {
 		st.States = 1
 		return res
 	}
-	seen[root.key] = struct{}{}
+	seen[hash128(root.key)] = struct{}{}
 	frontier := []hnode{{enabled: root.enabled, choices: choicesOf(root.points)[:root.npts]}}
 	capped := func() bool {
 		if o.MaxStates > 0 && len(seen) >= o.MaxStates {
@@ -209,13 +216,14 @@ depthLoop:
 						st.Pruned++
 						continue
 					}
+					kh := hash128(r.key)
 					if r.nontriv {
-						nontriv[r.key] = struct{}{}
+						nontriv[kh] = struct{}{}
 					}
-					if _, ok := seen[r.key]; ok {
+					if _, ok := seen[kh]; ok {
 						continue
 					}
-					seen[r.key] = struct{}{}
+					seen[kh] = struct{}{}
 					if o.Feature != nil && vi == 0 && allZero(full) {
 						if res.FeatureRoots == nil {
 							res.FeatureRoots = map[string][]string{}
@@ -230,7 +238,14 @@ depthLoop:
 					if len(st.Samples) < 4 && (len(seen)%211 == 7 || (r.nontriv && len(st.Samples) == 0)) {
 						st.Samples = append(st.Samples, map[string]interface{}{"history": ops, "env_choices": full})
 					}
-					next = append(next, hnode{ops: ops, choices: full, enabled: r.enabled})
+					// nodes with the same menu of enabled operations share one slice
+					ek := strings.Join(r.enabled, "\x00")
+					en, ok := internOps[ek]
+					if !ok {
+						en = r.enabled
+						internOps[ek] = en
+					}
+					next = append(next, hnode{ops: ops, choices: full, enabled: en})
 				}
 			}
 		}
@@ -247,10 +262,10 @@ depthLoop:
 		// sub-shards keep separate seen-sets; the driver unions these hashes to
 		// report distinct states per configuration
 		for k := range seen {
-			st.KeyHashes = append(st.KeyHashes, hashKey(k))
+			st.KeyHashes = append(st.KeyHashes, binary.LittleEndian.Uint64(k[:8]))
 		}
 		for k := range nontriv {
-			st.NontrivHashes = append(st.NontrivHashes, hashKey(k))
+			st.NontrivHashes = append(st.NontrivHashes, binary.LittleEndian.Uint64(k[:8]))
 		}
 		st.SubShard = fmt.Sprintf("%d/%d", o.Shard, o.NShards)
 	}
@@ -262,12 +277,12 @@ depthLoop:
 	return res
 }
 
-func hashKey(k string) uint64 {
-	h := uint64(1469598103934665603)
-	for i := 0; i < len(k); i++ {
-		h ^= uint64(k[i])
-		h *= 1099511628211
-	}
+type keyHash [16]byte
+
+func hash128(k string) keyHash {
+	sum := sha256.Sum256([]byte(k))
+	var h keyHash
+	copy(h[:], sum[:16])
 	return h
 }
 
